@@ -134,6 +134,18 @@ class Program:
         # no_std builds name the same items through `core::` / `alloc::`: normalise to the `std::` paths
         text = _re.sub(r'(?<![A-Za-z0-9_])(?:core|alloc)::', 'std::', text)
         self.j = json.loads(text)
+        self.reloc_report = []
+        if config != "fixture":
+            import os as _os0
+            try:
+                shapes = json.load(open(_os0.path.join(_os0.path.dirname(_os0.path.dirname(_os0.path.abspath(__file__))), "rules", "known_adt_shapes.json")))
+            except OSError:
+                shapes = None
+            if shapes:
+                from .inline import relocate_adts
+                text2, self.reloc_report = relocate_adts(text, self.j, shapes)
+                if self.reloc_report:
+                    self.j = json.loads(text2)
         self.inline_report = None
         self.alias_report = []
         self.closure_report = []
@@ -516,7 +528,7 @@ class CFG:
                             x = st.pop()
                             if x not in body["body"]:
                                 body["body"].add(x)
-                                st.extend(self.pred[x])
+                                st.extend(p for p in self.pred[x] if p in self.reach)   # blocks cut off by constant folding are in no loop
             self._loops = list(by_header.values())
         return self._loops
 
